@@ -193,6 +193,10 @@ type TaskMeta struct {
 	LastTitleAt      time.Time
 	LastBodyAt       time.Time
 	LastEpicAt       time.Time
+	// LegacyUntitled marks an item whose stored title is empty (legacy format): its visible title and
+	// body are derived from LegacyRawBody at the end of every replay.
+	LegacyUntitled bool
+	LegacyRawBody  string
 }
 
 type Graph struct {
